@@ -17,7 +17,8 @@ PROP = "C05"
 RULE = ("cases: random recipes (all connectives, depth<=5, DAG sharing, integer leaves incl. int16 extremes, "
         "every value/sign combination, atoms-only/compounds-only/mixed children) negated via negate()/Not, "
         "plus double negation; every nested negate() call is judged too. non-trivial: the negated node has >=1 "
-        "compound child and both truth values occurred among the judged assignments; distinct by canonical shape digest")
+        "compound child and both truth values occurred among the judged assignments; distinct by canonical shape digest"
+        ' Also: hostile twins, aliases, the bounded sweep of small formulas.')
 BUDGET = {"quick": (12, 200, 90), "thorough": (16, 2200, 1200)}
 PYTEST = True     # thorough tier also runs the repository's own tests under these monitors
 MANDATORY = ["judged:complement", "judged:form", "judged:id-kept", "contract:AtLeast.negate", "contract:Not.__new__"]
